@@ -98,3 +98,297 @@ def worker_tick(crate, which="tick"):
 
 def worker_tick_deadline(crate):
     return worker_tick(crate, "tick_with_deadline")
+
+
+def process_msg_dispatch(crate):
+    """C13: ObserverWorker::process_msg: a message whose predicate holds (or that has none) always leads to the action
+    of its operation type being attempted — rotation, close, create, restore, index dump, sync, deferred dump — and a
+    message whose predicate is false is dropped without any action; after a successful rotation either an index dump task
+    was started or a deferred dump is registered (the old blob's index is not forgotten)."""
+    res = P.ObResult("process_msg_dispatch")
+    fn = crate.method("ObserverWorker", "process_msg")
+    res.functions = ["ObserverWorker::process_msg (async body)"]
+    res.bounds = "one message, every OperationType, predicate true/false, every callee outcome"
+    ex = P.mk_executor(crate, cap=2, loop_bound=4, inline=[])
+    st = State()
+    w = Obj("observer_worker::ObserverWorker<K>")
+    wc = st.new_cell(w)
+    msg = Obj("observer::Msg")
+    op = Obj("observer::OperationType")
+    opd = z3.BitVec("optype", 64)
+    op.discr = Sym(opd, "isize")
+    OT = crate.enums["OperationType"]
+    st.pc.append(z3.Or([opd == BV64(v) for v in OT.values()]))
+    msg.fields[(None, crate.field_index("Msg", "optype"))] = op
+    outs = P.drive_async(ex, st, fn, [Ref(wc, (), True, "&mut ObserverWorker<K>"), msg])
+    res.paths = len(outs)
+    ACTION = {"ForceUpdateActiveBlob": "update_active_blob", "CloseActiveBlob": "Inner::close_active_blob", "CreateActiveBlob": "Inner::create_active_blob",
+              "RestoreActiveBlob": "Inner::restore_active_blob", "TryDumpBlobIndexes": "try_run_old_blob_indexes_dump_task", "TryFsyncData": "try_run_fsync_task",
+              "TryUpdateActiveBlob": "try_update_active_blob", "DeferredDumpBlobIndexes": "defer_blob_indexes_dump"}
+    missing = [k for k in OT if k not in ACTION]
+    if missing:
+        raise Unsupported("operation types without a modelled action: %s" % missing)
+
+    def per_path(o, isok, payload):
+        evs = [e for e in P.events_of(o) if e[0] == "await"]
+        names = [e[1] for e in evs]
+        pw = [e for e in evs if e[1].endswith("predicate_wrapper")]
+        if len(pw) != 1:
+            res.status = "violated"; res.detail = "predicate evaluated %d times" % len(pw); return False
+        pred = pw[0][3].t
+        others = [e for e in evs if not e[1].endswith("predicate_wrapper")]
+        if not P.prove(ex, res, o, z3.Implies(z3.Not(pred), z3.And(isok, z3.BoolVal(len(others) == 0))), "predicate false: dropped without any action"):
+            return False
+        for k, v in OT.items():
+            act = ACTION[k]
+            hit = [e for e in others if e[1].endswith(act) and (act != "update_active_blob" or not e[1].endswith("try_update_active_blob"))]
+            if not P.prove(ex, res, o, z3.Implies(z3.And(pred, opd == BV64(v)), z3.BoolVal(len(hit) >= 1)), "%s: %s is attempted" % (k, act.split("::")[-1])):
+                return False
+            P.cover(ex, res, o, z3.And(pred, opd == BV64(v)), "dispatch %s" % k)
+        tu = [e for e in others if e[1].endswith("try_update_active_blob")]
+        if tu:
+            r = tu[0][3]
+            updated = z3.And(ex.get_discr(o, r).t == BV64(0), ex._get_field(o, r, "Ok", 0, "bool").t)
+            runs = [e for e in others if e[1].endswith("try_run_old_blob_indexes_dump_task")]
+            defers = [e for e in others if e[1].endswith("defer_blob_indexes_dump")]
+            started = z3.Or([e[3].t for e in runs]) if runs else z3.BoolVal(False)
+            if not P.prove(ex, res, o, z3.Implies(z3.And(pred, updated, isok), z3.Or(started, z3.BoolVal(bool(defers)))),
+                           "after a rotation a dump task was started or a deferred dump is registered"):
+                return False
+            P.cover(ex, res, o, z3.And(updated, z3.BoolVal(bool(defers))), "rotation: dump deferred")
+        return True
+
+    _check_paths(ex, res, outs, per_path)
+    return P.finish(ex, res, ["dispatch %s" % k for k in OT] + ["rotation: dump deferred"])
+
+
+def rotation_decision(crate):
+    """C13/C04: ObserverWorker::try_update_active_blob: when the active blob has reached the configured size OR record
+    count, a new blob is created and installed (replace_active_blob) and Ok(true) is returned; when it is below both limits
+    nothing is created or replaced and Ok(false) is returned; a failure to create or install is reported as Err."""
+    res = P.ObResult("rotation_decision")
+    fn = crate.method("ObserverWorker", "try_update_active_blob")
+    res.functions = ["ObserverWorker::try_update_active_blob (async body)"]
+    res.bounds = "one call, active blob present/absent, arbitrary size / count / limits, every outcome of creating and installing the new blob"
+    ex = P.mk_executor(crate, cap=2, loop_bound=4, inline=[r"^Inner::(config|safe)$"])
+    st = State()
+    w = Obj("observer_worker::ObserverWorker<K>")
+    inner = Obj("storage::core::Inner<K>")
+    ic = st.new_cell(inner)
+    arc = Obj("std::sync::Arc<storage::core::Inner<K>>")
+    arc.fields[(None, 7001)] = Ref(ic, (), True, "&storage::core::Inner<K>")
+    w.fields[(None, crate.field_index("ObserverWorker", "inner"))] = arc
+    wc = st.new_cell(w)
+    size, count = z3.BitVec("active_file_size", 64), z3.BitVec("active_records_count", 64)
+    msz, mcnt = z3.BitVec("max_blob_size", 64), z3.BitVec("max_data_in_blob", 64)
+    present = z3.Bool("active_blob_present")
+    cfg_ok = z3.Bool("limits_configured")
+
+    def call_hook(ex_, st_, cname, args, dty):
+        if cname in ("Config::max_blob_size", "Config::max_data_in_blob"):
+            o = Obj(dty)
+            o.discr = Sym(z3.If(cfg_ok, BV64(1), BV64(0)), "isize")
+            o.fields[("Some", 0)] = Sym(msz if cname.endswith("max_blob_size") else mcnt, "u64")
+            return [(o, None)]
+        if cname == "Blob::file_size":
+            return [(Sym(size, "u64"), None)]
+        if cname == "Blob::records_count":
+            return [(Sym(count, "usize"), None)]
+        return None
+    ex.call_hook = call_hook
+
+    def await_hook(ex_, st_, name, fargs, out_ty, dty):
+        if name.endswith("read_active_blob"):
+            r = Obj(out_ty)
+            r.discr = Sym(z3.If(present, BV64(1), BV64(0)), "isize")
+            g = Obj("guard")
+            g.fields[(None, 7000)] = Obj("blob::core::Blob<K>")
+            r.fields[("Some", 0)] = Ref(st_.new_cell(Obj("blob::core::Blob<K>")), (), False, "async_lock::RwLockReadGuard<'_, blob::core::Blob<K>>")
+            st_.events.append(("await", name, fargs, r))
+            return [(S.poll_ready(dty, r), None)]
+        return None
+    ex.await_hook = await_hook
+    outs = P.drive_async(ex, st, fn, [Ref(wc, (), False, "&ObserverWorker<K>")])
+    res.paths = len(outs)
+
+    def per_path(o, isok, payload):
+        evs = [e for e in P.events_of(o) if e[0] == "await"]
+        news = [e for e in evs if e[1].endswith("get_new_active_blob")]
+        reps = [e for e in evs if e[1].endswith("replace_active_blob")]
+        full = z3.And(present, z3.Or(z3.UGE(size, msz), z3.UGE(count, mcnt)))
+        if not P.prove(ex, res, o, z3.Implies(z3.Not(cfg_ok), z3.And(z3.Not(isok), z3.BoolVal(not news and not reps))), "limits not configured: error, nothing touched"):
+            return False
+        if not P.prove(ex, res, o, z3.Implies(z3.And(cfg_ok, z3.Not(full)), z3.And(isok, z3.BoolVal(not news and not reps))), "below both limits (or no active blob): nothing is created or replaced"):
+            return False
+        if not P.prove(ex, res, o, z3.Implies(z3.And(cfg_ok, full), z3.BoolVal(len(news) == 1)), "size or count limit reached: a new blob is created"):
+            return False
+        val = payload.fields.get(("Ok", 0))
+        if val is not None:
+            if not P.prove(ex, res, o, z3.Implies(z3.And(isok, cfg_ok), val.t == full), "Ok(true) iff the active blob had reached a limit"):
+                return False
+        if news:
+            n_ok = ex.get_discr(o, news[0][3]).t == BV64(0)
+            if not P.prove(ex, res, o, z3.Implies(n_ok, z3.BoolVal(len(reps) == 1)), "the created blob is installed"):
+                return False
+            if reps:
+                newb = ex._get_field(o, news[0][3], "Ok", 0, "?")
+                arg = reps[0][2][1]
+                argv = S.deref_val(ex, o, arg) if isinstance(arg, Ref) else arg
+                if isinstance(newb, Obj) and isinstance(argv, Obj) and newb.oid != argv.oid:
+                    res.status = "violated"; res.detail = "the blob installed is not the blob created"; return False
+                r_ok = ex.get_discr(o, reps[0][3]).t == BV64(0)
+                if not P.prove(ex, res, o, isok == z3.And(n_ok, r_ok), "Ok iff creating and installing succeeded"):
+                    return False
+                P.cover(ex, res, o, z3.And(isok, z3.UGE(count, mcnt), z3.ULT(size, msz)), "rotated because of the record count alone")
+                P.cover(ex, res, o, z3.And(isok, z3.UGE(size, msz), z3.ULT(count, mcnt)), "rotated because of the size alone")
+            else:
+                if not P.prove(ex, res, o, z3.Not(isok), "creation failed: error"):
+                    return False
+                P.cover(ex, res, o, z3.Not(n_ok), "creating the new blob failed")
+        P.cover(ex, res, o, z3.And(cfg_ok, present, z3.Not(full), isok), "below the limits: no rotation")
+        return True
+
+    _check_paths(ex, res, outs, per_path)
+    return P.finish(ex, res, ["rotated because of the record count alone", "rotated because of the size alone", "creating the new blob failed", "below the limits: no rotation"])
+
+
+def rotation_request(crate):
+    """C13: Storage::try_update_active_blob (runs after every write): once the active blob has reached the configured size
+    or record count and is older than the debounce interval, a rotation request is sent to the worker; below both limits no
+    request is sent; the call itself fails only when the limits are not configured."""
+    res = P.ObResult("rotation_request")
+    fn = crate.method("Storage", "try_update_active_blob")
+    res.functions = ["Storage::try_update_active_blob (async body)"]
+    res.bounds = "one call, arbitrary size / count / limits / blob age"
+    ex = P.mk_executor(crate, cap=2, loop_bound=4, inline=[],
+                       havoc=[r"^(std::time::)?SystemTime::elapsed$", r"^(std::time::)?SystemTimeError::duration$", r"^std::result::Result::<.*>::map_err$"])
+    st = State()
+    storage = Obj("storage::core::Storage<K>")
+    sc = st.new_cell(storage)
+    size, count = z3.BitVec("active_file_size", 64), z3.BitVec("active_records_count", 64)
+    msz, mcnt = z3.BitVec("max_blob_size", 64), z3.BitVec("max_data_in_blob", 64)
+    age, deb = z3.BitVec("blob_age_ms", 128), z3.BitVec("debounce_interval_ms", 64)
+    cfg_ok = z3.Bool("limits_configured")
+
+    def call_hook(ex_, st_, cname, args, dty):
+        if cname in ("Config::max_blob_size", "Config::max_data_in_blob"):
+            o = Obj(dty)
+            o.discr = Sym(z3.If(cfg_ok, BV64(1), BV64(0)), "isize")
+            o.fields[("Some", 0)] = Sym(msz if cname.endswith("max_blob_size") else mcnt, "u64")
+            return [(o, None)]
+        if cname == "Blob::file_size":
+            return [(Sym(size, "u64"), None)]
+        if cname == "Blob::records_count":
+            return [(Sym(count, "usize"), None)]
+        if cname == "Config::debounce_interval_ms":
+            return [(Sym(deb, "u64"), None)]
+        return None
+    ex.call_hook = call_hook
+
+    def h_millis(ex_, st_, frame, t, nf, args, dty):
+        return [(Sym(age, "u128"), None)]
+    ex.summaries.insert(0, (re.compile(r"^(std::time::|core::time::)?Duration::as_millis$"), h_millis))
+    lock = Obj("async_lock::RwLock<blob::core::Blob<K>>")
+    lock.fields[(None, 7000)] = Obj("blob::core::Blob<K>")
+    bx = Ref(st.new_cell(lock), (), False, "Box<async_lock::RwLock<blob::core::Blob<K>>>")
+    bc = st.new_cell(bx)
+    outs = P.drive_async(ex, st, fn, [Ref(sc, (), False, "&storage::core::Storage<K>"), Ref(bc, (), False, "&Box<async_lock::RwLock<blob::core::Blob<K>>>")])
+    res.paths = len(outs)
+
+    def per_path(o, isok, payload):
+        reqs = [e for e in P.events_of(o) if e[0] == "await" and e[1].endswith("Observer::try_update_active_blob")]
+        full = z3.Or(z3.UGE(size, msz), z3.UGE(count, mcnt))
+        old = z3.UGT(age, z3.ZeroExt(64, deb))
+        if not P.prove(ex, res, o, isok == cfg_ok, "fails only when the limits are not configured"):
+            return False
+        if not P.prove(ex, res, o, z3.Implies(z3.And(cfg_ok, full, old), z3.BoolVal(len(reqs) == 1)), "limit reached and debounce interval passed: rotation requested"):
+            return False
+        if not P.prove(ex, res, o, z3.Implies(z3.Not(z3.And(cfg_ok, full)), z3.BoolVal(len(reqs) == 0)), "below both limits: no request"):
+            return False
+        P.cover(ex, res, o, z3.And(cfg_ok, full, old, z3.ULT(size, msz)), "requested because of the record count alone")
+        P.cover(ex, res, o, z3.And(cfg_ok, full, z3.Not(old)), "debounced")
+        P.cover(ex, res, o, z3.And(cfg_ok, z3.Not(full)), "below the limits")
+        return True
+
+    _check_paths(ex, res, outs, per_path)
+    return P.finish(ex, res, ["requested because of the record count alone", "debounced", "below the limits"])
+
+
+def dump_all_old_blobs(crate, B=2):
+    """C13/C12: Safe::try_dump_old_blob_indexes: every closed blob's index dump is attempted exactly once, in order, however
+    the time quanta fall (the lock is released between quanta and the scan resumes where it stopped, always making progress);
+    a failed dump of one blob does not stop the others."""
+    res = P.ObResult("dump_all_old_blobs[B<=%d]" % B)
+    fn = crate.method("Safe", "try_dump_old_blob_indexes")
+    res.functions = ["Safe::try_dump_old_blob_indexes (async body)"]
+    res.bounds = "0..%d closed blobs (one run per count), every pattern of quantum expiry, every dump outcome" % B
+    from . import iters as IT
+    from .symex import FutureV
+    total = 0
+    q = s_ = 0
+    for n in range(B + 1):
+        def h_skip(ex_, st_, frame, t, nf, args, dty):
+            it, _ = IT._get_iter(ex_, st_, args[0])
+            k = z3.simplify(args[1].t)
+            if not z3.is_bv_value(k):
+                raise Unsupported("skip by a symbolic count")
+            k = k.as_long()
+            new = IT.IterV(it.slots[k:], it.item_ty, True, BV64(max(0, len(it.slots) - k)))
+            return [(new, None)]
+
+        def h_expired(ex_, st_, frame, t, nf, args, dty):
+            return [(Sym(z3.Bool(IT.fresh_name("quantum_expired")), "bool"), None)]
+        ex = P.mk_executor(crate, cap=B + 1, loop_bound=2 * B + 3, inline=[],
+                           extra_summaries=[(r"^<.* as (\S*::)?Iterator>::skip$", h_skip), (r"^<(std::time::)?Duration as PartialOrd>::(gt|ge|lt|le)$", h_expired)],
+                           havoc=[r"^(tokio::sync::)?Semaphore::acquire$", r"^<.*Semaphore.* as .*>::", r"^(tokio::time::)?Instant::(now|elapsed)$"])
+        st = State()
+        safe = Obj("storage::core::Safe<K>")
+        lock = Obj("tokio::sync::RwLock<storage::core::Safe<K>>")
+        lock.fields[(None, 7000)] = safe
+        lc = st.new_cell(lock)
+        cells = [st.new_cell(Obj("blob::core::Blob<K>")) for _ in range(n)]
+
+        def call_hook(ex_, st_, cname, args, dty, _cells=cells):
+            if cname == "HierarchicalFilters::iter_mut":
+                slots = [(z3.BoolVal(True), Ref(c, (), True, "&mut blob::core::Blob<K>")) for c in _cells]
+                st_.events.append(("scan", cname, None, None))
+                return [(IT.IterV(slots, "&mut Blob<K>", True, BV64(len(_cells))), None)]
+            return None
+        ex.call_hook = call_hook
+
+        def h_acq(ex_, st_, frame, t, nf, args, dty):
+            return [(FutureV("Semaphore::acquire", args, None, "havoc"), None)]
+        ex.summaries.insert(0, (re.compile(r"^(tokio::sync::)?Semaphore::acquire$"), h_acq))
+        sem = Obj("std::sync::Arc<tokio::sync::Semaphore>")
+        dur = Obj("std::time::Duration")
+        outs = P.drive_async(ex, st, fn, [Ref(lc, (), False, "&tokio::sync::RwLock<storage::core::Safe<K>>"), sem, dur])
+        total += len(outs)
+        for o in outs:
+            if o.status in ("infeasible", "unwind"):
+                continue
+            if o.status != "returned":
+                if not P.prove(ex, res, o, z3.BoolVal(False), "no panic (%s)" % o.note):
+                    return P.finish(ex, res, [])
+                continue
+            dumps = [e for e in P.events_of(o) if e[0] == "await" and e[1].endswith("Blob::dump")]
+            order = [cells.index(e[2][0].cell) if isinstance(e[2][0], Ref) and e[2][0].cell in cells else -1 for e in dumps]
+            if order != list(range(n)):
+                # is this path feasible at all?
+                if ex.feasible(o, z3.BoolVal(True)):
+                    res.status = "violated"; res.detail = "%d closed blobs, dumps attempted for %s" % (n, order)
+                    return P.finish(ex, res, [])
+            if n == B:
+                fails = [ex.get_discr(o, e[3]).t != BV64(0) for e in dumps]
+                if fails:
+                    P.cover(ex, res, o, fails[0], "first dump failed, the rest still attempted")
+                exp = [e for e in o.events if e[0] == "call"]
+            nq = len([e for e in o.events if e[0] == "scan"])
+            if n == B and nq >= 2:
+                P.cover(ex, res, o, z3.BoolVal(True), "a quantum expired in the middle and the scan resumed")
+            if n == 0:
+                P.cover(ex, res, o, z3.BoolVal(True), "no closed blobs")
+        q += ex.queries; s_ += ex.solver_s
+    res.paths = total
+    r = P.finish(ex, res, ["first dump failed, the rest still attempted", "a quantum expired in the middle and the scan resumed", "no closed blobs"])
+    r.queries, r.solver_s = q, s_
+    return r
